@@ -118,7 +118,7 @@ pub fn run(cases_path: &str, out_path: &str) {
                 json!({"k": "node", "ent_ok": ent_ok, "ent_len": ent_len, "size": m.len(), "name": tree.names.get(&(m.dev(), m.ino())).cloned().unwrap_or_else(|| "?outside".into()),
                        "dir": m.is_dir(), "enc": enc, "varies": varies,
                        "ce": hd.get("content-encoding").map(|v| String::from_utf8_lossy(v.as_bytes()).to_string()).unwrap_or_default(),
-                       "vary": hd.get("vary").map(|v| String::from_utf8_lossy(v.as_bytes()).to_string()).unwrap_or_default()})
+                       "vary": hd.get("vary").map(|v| String::from_utf8_lossy(v.as_bytes()).to_ascii_lowercase()).unwrap_or_default()})
             }
         };
         e["plain"] = os_open(&tree, &path_bytes);
